@@ -78,7 +78,8 @@ func (fe functionExpr) CompletionAtPos(ctx context.Context, pos hcl.Pos) []lang.
 			_, lengthLastRune := utf8.DecodeLastRune(recoveredSuffixBytes)
 			recoveredSuffixBytes = recoveredSuffixBytes[:len(recoveredSuffixBytes)-lengthLastRune]
 
-			recoveredIdentifier := append(recoveredPrefixBytes, recoveredSuffixBytes...)
+			// both recovered slices alias the file's bytes, so the identifier is built in a new slice
+			recoveredIdentifier := append(append([]byte{}, recoveredPrefixBytes...), recoveredSuffixBytes...)
 
 			// check if our recovered identifier contains "::"
 			// Why two colons? For no colons the parser would return a traversal expression
